@@ -365,4 +365,90 @@ theorem noKills_reverseInPlace (a n : Nat) : NoKills (reverseInPlace a n) := by
   intro i _ b j h
   exact h
 
+/-! ## extension round: `callAt`, `zipCall2`, `sinkAt`, `freshRange` -/
+
+theorem ok_callAt {inp : Input} {rv : Bool} {a i : Nat} {d : Dest} (hrv : rv = true → ¬ IsLvCr (inp.cat a))
+    (hi : i < inp.size a) (hd : DestOk inp d) : Ok inp (callAt rv a i d) := by
+  unfold callAt
+  cases rv
+  · simp only [Bool.false_eq_true, if_false]; exact (ok_derive inp a i 1 d).2 ⟨hi, hd⟩
+  · simp only [if_true]; exact (ok_xfer_move inp a i d).2 ⟨hrv rfl, hi, hd⟩
+
+theorem callAt_footprint {rv : Bool} {a i : Nat} {d : Dest} {b j : Nat}
+    (h : (callAt rv a i d).kills b j ∨ (callAt rv a i d).uses b j) : a = b ∧ i = j := by
+  unfold callAt at h
+  cases rv <;> simp [Instr.kills, Instr.uses] at h <;> exact h
+
+theorem rv_not_lvcr {inp : Input} {a : Nat} : inp.isRv a = true → ¬ IsLvCr (inp.cat a) := not_lvcr_of_rv
+
+theorem false_not_lvcr {inp : Input} {a : Nat} : false = true → ¬ IsLvCr (inp.cat a) := fun h => by cases h
+
+theorem mem_zipCall2 {rv0 rv1 : Bool} {n : Nat} {d : Dest} {x : Instr} (hx : x ∈ zipCall2 rv0 rv1 n d) :
+    ∃ i, i < n ∧ (x = callAt rv0 0 i d ∨ x = callAt rv1 1 i d) := by
+  simp only [zipCall2, List.mem_flatMap, List.mem_range, List.mem_cons, List.not_mem_nil, or_false] at hx
+  obtain ⟨i, hi, h⟩ := hx
+  exact ⟨i, hi, h⟩
+
+theorem safe_zipCall2 {inp : Input} {rv0 rv1 : Bool} {n : Nat} {d : Dest}
+    (h0 : rv0 = true → ¬ IsLvCr (inp.cat 0)) (h1 : rv1 = true → ¬ IsLvCr (inp.cat 1))
+    (hn0 : n ≤ inp.size 0) (hn1 : n ≤ inp.size 1) (hd : DestOk inp d) : Safe inp (zipCall2 rv0 rv1 n d) := by
+  refine ⟨?_, ?_⟩
+  · intro x hx
+    obtain ⟨i, hi, rfl | rfl⟩ := mem_zipCall2 hx
+    · exact ok_callAt h0 (by omega) hd
+    · exact ok_callAt h1 (by omega) hd
+  · unfold Clean zipCall2
+    rw [List.pairwise_flatMap]
+    refine ⟨?_, ?_⟩
+    · intro i _
+      rw [List.pairwise_pair]
+      intro b j hk hu
+      have e1 := callAt_footprint (Or.inl hk)
+      have e2 := callAt_footprint (Or.inr hu)
+      omega
+    · refine List.Pairwise.imp ?_ (@List.pairwise_lt_range n)
+      intro i j hij x hx y hy b k hk hu
+      simp only [List.mem_cons, List.not_mem_nil, or_false] at hx hy
+      rcases hx with rfl | rfl <;> rcases hy with rfl | rfl <;>
+        (have e1 := callAt_footprint (Or.inl hk); have e2 := callAt_footprint (Or.inr hu); omega)
+
+/-- `zipCall2` with the value categories of the first two arguments -/
+theorem safe_zipCall2_rv {inp : Input} {n : Nat} {d : Dest} (hn0 : n ≤ inp.size 0) (hn1 : n ≤ inp.size 1) (hd : DestOk inp d) :
+    Safe inp (zipCall2 (inp.isRv 0) (inp.isRv 1) n d) :=
+  safe_zipCall2 rv_not_lvcr rv_not_lvcr hn0 hn1 hd
+
+theorem ok_sinkAt {inp : Input} {a i : Nat} (hi : i < inp.size a) : Ok inp (sinkAt (inp.isRv a) a i) := by
+  unfold sinkAt
+  cases h : inp.isRv a
+  · simp only [Bool.false_eq_true, if_false]; exact (ok_read inp a i).2 hi
+  · simp only [if_true]; exact (ok_xfer_move inp a i .drop).2 ⟨not_lvcr_of_rv h, hi, destOk_drop inp⟩
+
+theorem sinkAt_footprint {rv : Bool} {a i : Nat} {b j : Nat}
+    (h : (sinkAt rv a i).kills b j ∨ (sinkAt rv a i).uses b j) : a = b ∧ i = j := by
+  unfold sinkAt at h
+  cases rv <;> simp [Instr.kills, Instr.uses] at h <;> exact h
+
+theorem safe_freshRange {inp : Input} (n : Nat) (d : Dest) (hd : DestOk inp d) : Safe inp (freshRange n d) :=
+  safe_fresh_range n d hd
+
+theorem noKills_freshRange (n : Nat) (d : Dest) : NoKills (freshRange n d) := noKills_fresh_range n d
+
+theorem safe_pair {inp : Input} {x y : Instr} (hx : Ok inp x) (hy : Ok inp y) (hc : NoUseAfter x y) : Safe inp [x, y] :=
+  safe_cons hx (safe_singleton hy) (fun z hz => by simp only [List.mem_singleton] at hz; subst hz; exact hc)
+
+theorem safe_fresh_any (inp : Input) (v : Nat) (d : Dest) (hv : 100 ≤ v) (hd : DestOk inp d) : Safe inp [.fresh v d] :=
+  safe_singleton ((ok_fresh inp v d).2 ⟨hv, hd⟩)
+
+theorem onArg_singleton {a : Nat} {x : Instr} (h : ∀ b j, (x.kills b j ∨ x.uses b j) → b = a) : OnArg a [x] := by
+  intro y hy b j hb
+  simp only [List.mem_singleton] at hy
+  subst hy
+  exact h b j hb
+
+theorem anyCat_of_lvcr {inp : Input} {a : Nat} (h : catIn inp a [.lv, .cr] = true) : catIn inp a anyCat = true := by
+  obtain ⟨c, hc, hm⟩ := (catIn_iff inp a _).1 h
+  refine (catIn_iff inp a anyCat).2 ⟨c, hc, ?_⟩
+  simp at hm
+  rcases hm with rfl | rfl <;> simp [anyCat]
+
 end Fcppt.C05
